@@ -429,9 +429,11 @@ func genE1(r *Run, prop string) (*e1World, *e1Config) {
 					d.src = 1 + r.Choose("join-src", cfg.nlogs-1)
 				}
 			} else {
-				x := r.Choose("kind14", 24)
+				x := r.Choose("kind14", 27)
 				d.target = r.Choose("target", cfg.nlogs)
 				switch {
+				case x >= 24:
+					d.kind = []int{kHas, kGet, kLen}[x-24] // the point reads of an application polling a log that others merge from
 				case x >= 22:
 					d.kind = kIterator // (with and without upper bounds; a refused bound must leave the log usable)
 				case prop == "C17" && x >= 15 && x < 20:
